@@ -51,7 +51,9 @@ def drv_recall(name):
 
 
 def drv_mw(name):
-    entry = Entry("article", "k", [Field("title", "t"), Field("author", [FIRST, name])])
+    # 'editor' is a second name field standing BEFORE the one under test: if 'author' turns out invalid, the error block
+    # must retain the ORIGINAL entry, i.e. the editor must still be the list of strings
+    entry = Entry("article", "k", [Field("editor", [FIRST]), Field("author", [FIRST, name])])
     lib = Library([entry])
     out = N.SplitNameParts(allow_inplace_modification=True).transform(lib)
     return entry, out.blocks, O.oracle(name)
@@ -140,7 +142,7 @@ def replay_mw(name):
     exp = O.oracle(name)
     if exp[0] == "unspecified":
         return None
-    entry = Entry("article", "k", [Field("title", "t"), Field("author", [FIRST, name])])
+    entry = Entry("article", "k", [Field("editor", [FIRST]), Field("author", [FIRST, name])])
     try:
         out = N.SplitNameParts(allow_inplace_modification=True).transform(Library([entry]))
     except Exception as e:  # noqa
@@ -150,7 +152,7 @@ def replay_mw(name):
     b = out.blocks
     if exp[0] == "invalid":
         ok = (len(b) == 1 and isinstance(b[0], MiddlewareErrorBlock) and b[0].ignore_error_block is entry
-              and entry.fields[1].value == [FIRST, name] and isinstance(b[0].error, N.InvalidNameError))
+              and entry.fields[1].value == [FIRST, name] and entry.fields[0].value == [FIRST] and isinstance(b[0].error, N.InvalidNameError))
     else:
         v = entry.fields[1].value
         ok = (len(b) == 1 and b[0] is entry and isinstance(v, list) and len(v) == 2
@@ -159,7 +161,7 @@ def replay_mw(name):
               and [v[1].first, v[1].von, v[1].last, v[1].jr] == list(exp[1:]))
     if ok:
         return None
-    return {"input": name, "observed": f"blocks={[type(x).__name__ for x in b]} author={entry.fields[1].value!r}", "expected": list(exp)}
+    return {"input": name, "observed": f"blocks={[type(x).__name__ for x in b]} editor={entry.fields[0].value!r} author={entry.fields[1].value!r}", "expected": list(exp)}
 
 
 def sym_input(eng, L, sigma, prefix):
@@ -284,7 +286,7 @@ def task_mw(L, sigma, prefix=""):
         if exp[0] == "invalid":
             good = (isinstance(b, MiddlewareErrorBlock) and b.ignore_error_block is entry
                     and isinstance(b.error, N.InvalidNameError) and isinstance(entry.fields[1].value, list)
-                    and len(entry.fields[1].value) == 2)
+                    and len(entry.fields[1].value) == 2 and entry.fields[0].value == [FIRST])
             if good:
                 good = E(entry.fields[1].value, [FIRST, s])
             rec.require(W, b_not(good), "middleware-error-block", rp)
